@@ -33,7 +33,7 @@ def close_unstarted(coros):
     it did start are left alone - whether they are stopped is what the checks observe"""
     import inspect
     for c in coros:
-        if inspect.getcoroutinestate(c) == inspect.CORO_CREATED:
+        if inspect.iscoroutine(c) and inspect.getcoroutinestate(c) == inspect.CORO_CREATED:
             c.close()
 
 
@@ -658,7 +658,8 @@ class Interp:
         elif h == 'collect':
             from usim import collect
             holders = [{} for _ in s[1:]]
-            coros = [self.task_body(hd, pr[1:]) for hd, pr in zip(holders, s[1:])]
+            # (an activity ['plain', cexpr] is a plain awaitable - `collect(time + 20, work())` -: no code of its own, judged only)
+            coros = [self.cond(pr[1]) if pr[0] == 'plain' else self.task_body(hd, pr[1:]) for hd, pr in zip(holders, s[1:])]
             # collect() spawns the activities in argument order inside its own scope: labels follow
             base = self.task_count
             self.emit(label, 'cbegin', [len(holders), 1000 + base])
